@@ -20,7 +20,7 @@ func init() {
 			"(6) the redis back-end reads the same options and maps must-not-exist to SetNX (not-ok -> ErrTTLKeyExists), keep-ttl to redis.KeepTTL, remove-after-get to GetDel, update-ttl to Expire, redis.Nil to ErrTTLKeyNotFound; (7) every time.Duration handed to redis that derives from a ttl (seconds, as fixed by now()+ttl with now()=Unix()) is multiplied by time.Second. " +
 			"NOT decided: behavioural agreement of the two back-ends over whole histories, redis server semantics, clock readings exactly on a deadline.",
 		Assumptions: []string{"container/list contract", "now() returns Unix seconds (read from its definition)", "go-redis command semantics"},
-		Floors:      map[string]int{"C05.guarded-by": 8, "C05.expiry-before-use": 2, "C05.index-list-coupled": 3, "C05.bound": 1, "C05.options": 4, "C05.deadline-fn": 1, "C05.redis-mapping": 5, "C05.ttl-unit": 3, "C05.ttl-source": 3, "C05.redis-clear": 1},
+		Floors:      map[string]int{"C05.guarded-by": 8, "C05.expiry-before-use": 2, "C05.index-list-coupled": 3, "C05.bound": 1, "C05.options": 4, "C05.deadline-fn": 1, "C05.redis-mapping": 5, "C05.ttl-unit": 3, "C05.ttl-source": 3, "C05.redis-clear": 1, "C05.recency": 2},
 		Run:         runC05,
 	})
 }
@@ -87,10 +87,51 @@ func runC05(c *Ctx) {
 			x.checkExpiry(t, name, fn.Name())
 			x.checkCoupled(t, name, fn.Name())
 			x.checkOptions(t, name, fn.Name())
+			x.checkRecency(t, name, fn.Name())
 		}
 	}
 	x.checkDeadlineFn()
 	x.checkRedis()
+}
+
+// checkRecency: a successful Get or Set that finds the key and keeps its entry moves that entry to the front of the
+// list — eviction takes the tail, so an entry that is read or written without being moved is evicted although
+// it was touched more recently than `size` other keys.
+func (x *ttlCtx) checkRecency(t *Trace, name, method string) {
+	if method != "Get" && method != "Set" {
+		return
+	}
+	c := x.c
+	if !t.Ret[len(t.Ret)-1].isNilConst() {
+		return
+	}
+	facts := t.factsBefore(len(t.Events))
+	var ele *Sym
+	for _, e := range t.Events {
+		if e.Kind == EvMapLookup && e.Res.Kind == KTuple {
+			if _, ok := symFieldBase(e.Addr, x.eleHash); ok {
+				if v, known := boolFact(facts, e.Res.Args[1]); known && v {
+					ele = e.Res.Args[0]
+				}
+			}
+		}
+	}
+	if ele == nil {
+		return
+	}
+	removed, moved := false, false
+	for _, e := range t.Events {
+		if x.listCall(e, "Remove") && len(e.Args) > 1 && e.Args[1].Key() == ele.Key() {
+			removed = true
+		}
+		if x.listCall(e, "MoveToFront") && len(e.Args) > 1 && e.Args[1].Key() == ele.Key() {
+			moved = true
+		}
+	}
+	if removed {
+		return
+	}
+	c.check(moved, "C05.recency", name+" touch", t.Events[0].Pos, "a found entry that is kept is moved to the front", method+" succeeds on an entry it found and keeps, without moving it to the front of the list: the key just touched is the next to be evicted although `size` other keys were touched less recently", c.witness(t, len(t.Events)-1)...)
 }
 
 // infeasible: paths excluded by container/list's contract or by the index invariant (only non-nil
